@@ -20,7 +20,7 @@ PROPERTY_UNITS = {
     "C10": ["V1_runtime"],
     "C11": ["K1_numbers", "V1_runtime"],
     "C12": ["K1_numbers", "V1_runtime"],
-    "C15": ["V2_basic", "V1_runtime"],
+    "C15": ["V2_basic"],
     "C16": ["V1_runtime", "V2_basic"],
     "C17": ["V1_runtime"],
 }
